@@ -544,7 +544,16 @@ func c14V3Arrivals(c *Ctx, n int) {
 			kind := ""
 			piece := c.genPayload(1 + c.R.Intn(4))
 			var m []byte
-			switch x := c.R.Intn(16); {
+			switch x := c.R.Intn(19); {
+			case x == 16:
+				kind = "one-bar"
+				m = []byte(fmt.Sprintf("?OTR|%08x%08x,%05d,%05d,%s,", st, rt, k+1, tot, piece))
+			case x == 17:
+				kind = "extra-bar"
+				m = []byte(fmt.Sprintf("?OTR|%08x|%07x|,%05d,%05d,%s,", st, rt, k+1, tot, piece))
+			case x == 18:
+				kind = "comma-for-bar"
+				m = []byte(fmt.Sprintf("?OTR|%08x,%08x,%05d,%05d,%s,", st, rt, k+1, tot, piece))
 			case x < 6:
 				k++
 				if k > tot {
